@@ -509,7 +509,7 @@ def run(ctx, only=None):
             for v in versions:
                 plan.append((v, 36000 + v.major * 10 + v.minor, 1))
             plan.append((versions[0], 1, 0))
-            per = ctx.n(3, 22)
+            per = ctx.n(3, 70)
             for v in versions:
                 for _ in range(per):
                     plan.append((v, ctx.rng.randrange(10 ** 9), ctx.rng.choice([1, 2, 3])))
